@@ -18,8 +18,12 @@ def run(tier, seed):
                   "TLC enumerates every token sequence up to length 4 (quick) / 5 (thorough) over {0,1,5,9,-,',',SP,x,2^63-1,2^64} "
                   "behind 'bytes=' plus short tails behind six other unit prefixes, and evaluates the reference Allowed(prefix, tail, size) "
                   "for sizes {0,1,2,10,1000}; the Go driver runs the real header parsing and slicing on every (value, size) under recover(); "
-                  "TLC judges each recorded outcome (206 a-b | 416 | 200 | panic) for membership in Allowed. distinct_nontrivial = distinct header values.",
-                  ["function level: ParseHeaderDirective(...).Range + SliceSize; the end-to-end part (status line, Content-Range, body) is added when present in 'parts'",
+                  "TLC judges each recorded outcome (206 a-b | 416 | 200 | panic) for membership in Allowed. End to end: the same values (length <=3/4) "
+                  "are sent on a raw socket through the real proxy for stored bodies of 1, 2, 10 and 1000 bytes (origin ignores Range); status, "
+                  "Content-Range, Content-Length and the body bytes are condensed into the same outcome form (a 206 whose Content-Range or bytes "
+                  "do not match the stored body, a 416 without 'bytes */size', a short 200 are outcomes of their own, never allowed) and judged "
+                  "by the same operator. distinct_nontrivial = distinct header values.",
+                  ["function level: ParseHeaderDirective(...).Range + SliceSize; end to end: plain HTTP, memory backend (quick) / both backends (thorough)",
                    "lenient white space inside numbers and the 'Bytes' unit may be served or refused"])
 
 
